@@ -80,6 +80,20 @@ Definition case_rule_sem (v : val) : val :=
             end
         end) want).
 
+(* 12: does_node_match_exactly through MetaVarEnv::insert twice:
+       (src tree ((x y) ...)) -> per pair 1/0 *)
+Definition case_exact (v : val) : val :=
+  let d := vdepth v in
+  let root := g_tree d (gNth 1 v) in
+  let src := gS (gNth 0 v) in
+  let nodes := preorder root in
+  let byid (i : N) := find (fun t => N.eqb (tid t) i) nodes in
+  VL (map (fun p =>
+        match byid (gN (gNth 0 p)), byid (gN (gNth 1 p)) with
+        | Some x, Some y => vB (exact src x y)
+        | _, _ => vErr []
+        end) (gL (gNth 2 v))).
+
 Definition run_case (fid : Z) (v : val) : val :=
   match fid with
   | 1 => v_metavar (extract_meta_var (gN (gNth 0 v)) (gS (gNth 1 v)))
@@ -100,6 +114,7 @@ Definition run_case (fid : Z) (v : val) : val :=
              end)
   | 10 => case_pattern_match v
   | 11 => case_match_len v
+  | 12 => case_exact v
   | 20 => case_rule_match v
   | 100 => case_rule_sem v
   | _ => vErr []
